@@ -1,6 +1,7 @@
 package gvc
 
 import (
+	"regexp"
 	"bufio"
 	"fmt"
 	"io"
@@ -33,6 +34,7 @@ type Solver struct {
 	timeout int // ms per check-sat
 	curTimeout int
 	ndeferred int
+	decls   []string // declarations are global (never popped)
 	scopes  []int
 	nscope  int
 	Checks  int
@@ -42,7 +44,7 @@ type Solver struct {
 	Errors  []string
 }
 
-const solverPrelude = "(set-option :print-success false)\n(set-option :produce-models true)\n"
+const solverPrelude = "(set-option :print-success false)\n(set-option :produce-models true)\n(set-option :global-declarations true)\n"
 
 func NewSolver(bin string, timeoutMs int) *Solver {
 	s := &Solver{bin: bin, timeout: timeoutMs}
@@ -70,6 +72,10 @@ func (s *Solver) start() {
 func (s *Solver) restart() {
 	s.Close()
 	s.start()
+	for _, d := range s.decls {
+		io.WriteString(s.in, d)
+		io.WriteString(s.in, "\n")
+	}
 	for i, fr := range s.stack {
 		if i > 0 {
 			io.WriteString(s.in, "(push 1)\n")
@@ -101,7 +107,10 @@ func (s *Solver) raw(c cmdEntry) {
 }
 
 func (s *Solver) Declare(name string, sort Sort) {
-	s.raw(cmdEntry{z3: fmt.Sprintf("(declare-const %s %s)", name, sort)})
+	c := fmt.Sprintf("(declare-const %s %s)", name, sort)
+	s.decls = append(s.decls, c)
+	io.WriteString(s.in, c)
+	io.WriteString(s.in, "\n")
 }
 
 func (s *Solver) DeclareFun(name string, args []Sort, res Sort) {
@@ -109,7 +118,10 @@ func (s *Solver) DeclareFun(name string, args []Sort, res Sort) {
 	for _, a := range args {
 		as = append(as, a.String())
 	}
-	s.raw(cmdEntry{z3: fmt.Sprintf("(declare-fun %s (%s) %s)", name, strings.Join(as, " "), res)})
+	c := fmt.Sprintf("(declare-fun %s (%s) %s)", name, strings.Join(as, " "), res)
+	s.decls = append(s.decls, c)
+	io.WriteString(s.in, c)
+	io.WriteString(s.in, "\n")
 }
 
 func (s *Solver) Assert(t *Term) {
@@ -248,6 +260,12 @@ func (s *Solver) CheckSatT(ms int) string {
 			res = l
 		default:
 			if strings.HasPrefix(l, "(error") {
+				if strings.Contains(l, "canceled") {
+					// the soft timeout hit in the middle of a command: the
+					// process state is unreliable, rebuild it from the mirror
+					s.restart()
+					return "unknown"
+				}
 				s.Errors = append(s.Errors, l)
 				if len(s.Errors) < 5 {
 					fmt.Fprintln(os.Stderr, "solver error:", l)
@@ -349,6 +367,47 @@ func (s *Solver) Script(goal *Term, dialect string) string {
 	} else {
 		sb.WriteString("(set-option :produce-models true)\n")
 	}
+	// declarations are global in the solver process; a standalone script only
+	// needs those its assertions mention
+	var body strings.Builder
+	defer func() {}()
+	for _, fr := range s.stack {
+		for _, c := range fr {
+			if c.deferred && goal == nil {
+				continue
+			}
+			if dialect == "cvc5" && c.cvc5 != "" {
+				body.WriteString(c.cvc5)
+			} else {
+				body.WriteString(c.z3)
+			}
+			body.WriteByte('\n')
+		}
+	}
+	if goal != nil {
+		body.WriteString("(assert (not " + goal.S + "))\n")
+	}
+	used := map[string]bool{}
+	for _, id := range scriptIdentRe.FindAllString(body.String(), -1) {
+		used[id] = true
+	}
+	for _, d := range s.decls {
+		// "(declare-const NAME SORT)" / "(declare-fun NAME ..."
+		f := strings.Fields(d)
+		if len(f) >= 2 && used[f[1]] {
+			sb.WriteString(d)
+			sb.WriteByte('\n')
+		}
+	}
+	sb.WriteString(body.String())
+	sb.WriteString("(check-sat)\n")
+	return sb.String()
+}
+
+var scriptIdentRe = regexp.MustCompile(`[A-Za-z_][A-Za-z0-9_.]*![0-9]+`)
+
+func (s *Solver) scriptOld(goal *Term, dialect string) string {
+	var sb strings.Builder
 	for _, fr := range s.stack {
 		for _, c := range fr {
 			if c.deferred && goal == nil {
